@@ -168,7 +168,15 @@ def explore(run, tier):
     for data in [b'1144' + bm([2]) + b'-2' + b'1234', b'1144' + bm([2, 3]) + b'-21234', b'1144' + bm([2, 128]) + b'03123',
                  b'1144' + bm([2, 3]) + b'00123456', b'1144' + bm([2]) + b'00', b'1144' + bm([48]) + b'000',
                  b'1144' + bm([2]) + b' 3123', b'1144' + bm([2]) + b'+3123', b'1144' + bm([48]) + b'0_5' + b'00010' * 1,
-                 b'1144' + bm([48]) + b'0100001003abc', b'1144' + bm([48]) + b'0090001003ab']:
+                 b'1144' + bm([48]) + b'0100001003abc', b'1144' + bm([48]) + b'0090001003ab',
+                 # ICC data that ends in a tag without a length byte (one-byte tag, the first byte of a two-byte tag, a
+                 # whole two-byte tag), alone and after a complete data object
+                 b'1144' + bm([55]) + b'001\x9a', b'1144' + bm([55]) + b'001\x9f', b'1144' + bm([55]) + b'002\x9f\x36',
+                 b'1144' + bm([55]) + b'004\x82\x01\x00\x9a', b'1144' + bm([55]) + b'005\x9a\x02\x12\x34\x5f',
+                 b'1144' + bm([55]) + b'006\x9a\x02\x12\x34\x9f\x10', b'1144' + bm([55]) + b'003\x82\x01\x00',
+                 # PDS carriers with a sub-element header whose length int() cannot read, at the end / in the middle
+                 b'1144' + bm([48]) + b'0140001003abc0002', b'1144' + bm([48]) + b'0180001003abc0002_01Z',
+                 b'1144' + bm([48]) + b'0180001003abc0002xx1Z', b'1144' + bm([48]) + b'0080002xx1Z']:
         cases.append({'cfg': 'pkg', 'codec': 'latin_1', 'hex': 0, 'data': data.hex(), 'mut': 'corpus'})
     # hexadecimal bitmap: spellings that int(.., 16) / bytes.fromhex tolerate (sign, blanks, underscores) are NOT hex
     # bitmaps; the element data is laid out for the bitmap such a lenient reading would produce
